@@ -779,7 +779,8 @@ static void write_evidence(double wall, bool crashed, const std::string & crash_
     first = false;
   }
   o << "],\n \"wall_s\": " << fmt("%.3f", wall) << ",\n \"violations\": " << g.violations + (crashed ? 1 : 0) << "\n}\n";
-  std::ofstream f(g.root + "/evidence/" + g.pid + ".json");
+  // a run restricted with --only does not describe the whole check: it must not replace the evidence file
+  std::ofstream f(g.root + "/evidence/" + g.pid + (g.only.empty() ? ".json" : ".only.json"));
   f << o.str();
 }
 
